@@ -144,6 +144,19 @@ Example c18_nonvacuous :
   calculate_max_input 21 = 13 /\ max_chunk_fit 21 DEFAULT_CHUNK_SIZE = 15.
 Proof. vm_compute. repeat split. Qed.
 
+
+(* ------------------------------------------------------------------ tie to the source by translation *)
+(** The Rust functions below are translated to Gallina from the repository's CURRENT sources on every run
+    (tools/rs2coq.py -> theories/Gen.v); they equal the model's functions for all arguments, so the theorems above
+    hold for what the code says now. A change of one of these functions that is not an equivalent rewrite breaks the
+    proof obligation here. *)
+From Hoot Require Import Gen.
+From Hoot.proofs Require Import Gen_equiv.
+Theorem c18_code_calculate_max_input : forall n, gen_calculate_max_input n = calculate_max_input n.
+Proof. exact gen_calculate_max_input_eq. Qed.
+Theorem c18_code_max_chunk_fit : forall a m, gen_max_chunk_fit a m = max_chunk_fit a m.
+Proof. exact gen_max_chunk_fit_eq. Qed.
+
 Print Assumptions c18_hexlen.
 Print Assumptions c18_fit_cases.
 Print Assumptions c18_fit_sound.
@@ -160,3 +173,5 @@ Print Assumptions c18_sized.
 Print Assumptions c18_sized_fits.
 Print Assumptions c18_advertised.
 Print Assumptions c18_nonvacuous.
+Print Assumptions c18_code_calculate_max_input.
+Print Assumptions c18_code_max_chunk_fit.
